@@ -1051,3 +1051,7 @@ pub use crate::client::synchronous::threaded::new_threaded_client;
 pub use crate::client::synchronous::threaded::builder::ThreadedClientBuilder;
 
 
+
+#[cfg(feature = "verif")]
+#[path = "verif_client.rs"]
+pub(crate) mod verif_client;
